@@ -12,6 +12,7 @@ import (
 	"math/big"
 	"regexp"
 	"strings"
+	"sync"
 	"testing"
 
 	"github.com/mutagen-io/mutagen/pkg/identifier"
@@ -49,11 +50,117 @@ func generateWith(prefix string, value []byte) (id string, consumed int, err err
 	return id, sr.read, err
 }
 
+// gatedReader is the scripted crypto/rand.Reader of the overlap leg. Every Read
+// takes the next queued value; the call with index parkAt signals parked after
+// it has filled the caller's buffer and then waits for release. This owns the
+// one visible scheduling point between two concurrent identifier.New calls.
+type gatedReader struct {
+	mu      sync.Mutex
+	values  [][]byte
+	calls   int
+	parkAt  int
+	parked  chan struct{}
+	release chan struct{}
+}
+
+func (g *gatedReader) Read(p []byte) (int, error) {
+	g.mu.Lock()
+	idx := g.calls
+	g.calls++
+	if idx >= len(g.values) || len(p) != len(g.values[idx]) {
+		g.mu.Unlock()
+		return 0, io.ErrUnexpectedEOF
+	}
+	n := copy(p, g.values[idx])
+	g.mu.Unlock()
+	if idx == g.parkAt {
+		close(g.parked)
+		<-g.release
+	}
+	return n, nil
+}
+
+// overlapGenerate runs identifier.New(prefix1) with value1, parks it right
+// after its random bytes were delivered, runs a complete identifier.New(prefix2)
+// with value2, then lets the first finish. With warmup, one more complete
+// generation runs first. It returns the two identifiers.
+func overlapGenerate(prefix1 string, value1 []byte, prefix2 string, value2 []byte, warmup bool) (id1, id2 string, err error) {
+	g := &gatedReader{parked: make(chan struct{}), release: make(chan struct{})}
+	if warmup {
+		g.values = append(g.values, bytes.Repeat([]byte{0x5a}, 32))
+		g.parkAt = 1
+	}
+	g.values = append(g.values, value1, value2)
+	saved := rand.Reader
+	rand.Reader = g
+	defer func() { rand.Reader = saved }()
+	if warmup {
+		if _, err := identifier.New(prefix1); err != nil {
+			return "", "", err
+		}
+	}
+	type res struct {
+		id  string
+		err error
+	}
+	first := make(chan res, 1)
+	go func() {
+		id, err := identifier.New(prefix1)
+		first <- res{id, err}
+	}()
+	<-g.parked
+	id2, err2 := identifier.New(prefix2)
+	close(g.release)
+	r1 := <-first
+	if r1.err != nil {
+		return "", "", r1.err
+	}
+	return r1.id, id2, err2
+}
+
+// c39checkOverlap judges one overlap case: each identifier must be the one its
+// own bytes give when generated alone, and different bytes must give different
+// identifiers.
+func c39checkOverlap(c c39case) string {
+	v1, _ := hex.DecodeString(c.Value)
+	v2, _ := hex.DecodeString(c.Value2)
+	want1, _, err := generateWith(c.Prefix, v1)
+	if err != nil {
+		return "identifier.New fails: " + err.Error()
+	}
+	want2, _, err := generateWith(c.Prefix2, v2)
+	if err != nil {
+		return "identifier.New fails: " + err.Error()
+	}
+	id1, id2, err := overlapGenerate(c.Prefix, v1, c.Prefix2, v2, c.Warmup)
+	if err != nil {
+		return "identifier.New fails when overlapped: " + err.Error()
+	}
+	// "is distinct from every other generated identifier"
+	if c.Value != c.Value2 && id1[5:] == id2[5:] {
+		return fmt.Sprintf("two overlapping generations with different random bytes (%s, %s) both return %q / %q", c.Value, c.Value2, id1, id2)
+	}
+	if id1 != want1 {
+		return fmt.Sprintf("the generation that was overlapped returns %q, its own random bytes %s give %q", id1, c.Value, want1)
+	}
+	if id2 != want2 {
+		return fmt.Sprintf("the generation that ran during the overlap returns %q, its own random bytes %s give %q", id2, c.Value2, want2)
+	}
+	return ""
+}
+
 type c39case struct {
-	Leg    string // "id" or "name"
+	Leg    string // "id", "name" or "overlap"
 	Prefix string `json:",omitempty"`
 	Value  string `json:",omitempty"` // hex of the 32 random bytes
 	Name   string `json:",omitempty"`
+	// overlap leg: a second generation (Prefix2, Value2) runs to completion
+	// while the first one is parked right after its random bytes were
+	// delivered; Warmup = a complete generation precedes both (so that the
+	// parked reader call is the second one).
+	Prefix2 string `json:",omitempty"`
+	Value2  string `json:",omitempty"`
+	Warmup  bool   `json:",omitempty"`
 }
 
 // c39values builds the structured 32-byte values (deduplicated, in a fixed
@@ -225,6 +332,15 @@ func TestC39(t *testing.T) {
 	if raw := vr.ReplayCase(); raw != nil {
 		var c c39case
 		json.Unmarshal(raw, &c)
+		if c.Leg == "overlap" {
+			what := c39checkOverlap(c)
+			t.Logf("replay overlap %+v: verdict=%q", c, what)
+			r.Case(vr.J(c), true)
+			if what != "" {
+				r.Violate("overlap "+vr.J(c), what, c, nil)
+			}
+			return
+		}
 		if c.Leg == "name" {
 			what, class, must := c39checkName(c.Name)
 			t.Logf("replay name %q: class=%s mustReject=%v verdict=%q", c.Name, class, must, what)
@@ -246,8 +362,9 @@ func TestC39(t *testing.T) {
 	values := c39values(vr.Thorough())
 	names := c39names(vr.Thorough())
 	prefixes := []string{identifier.PrefixSynchronization, identifier.PrefixForwarding, identifier.PrefixProject, identifier.PrefixPrompter}
-	r.Rule(fmt.Sprintf("identifier leg: crypto/rand.Reader scripted with each of %d structured 32-byte values (k=0..32 leading zero bytes x next byte x fill {00,ff,counter}; every single-bit value; 62^j-1, 62^j, 62^j+1 for j=0..43; all-zero, all-ff) x 4 documented prefixes through the real identifier.New; every identifier judged for prefix, length 48, documented form, IsValid, Truncated-is-prefix, and pairwise distinctness over the whole set (distinct inputs => distinct identifiers); name leg: %d names (plain, reserved-word neighbours, UUID mutations, all 8-4-4-4-12 strings with one character class per group) through the real EnsureNameValid, plus every generated identifier offered as a name. Non-trivial: every identifier case; name cases that the statement requires to be rejected", len(values), len(names)))
-	r.Assume("the statistical claim that random draws are distinct is not decided here, only injectivity of the encoding over the enumerated values",
+	r.Rule(fmt.Sprintf("identifier leg: crypto/rand.Reader scripted with each of %d structured 32-byte values (k=0..32 leading zero bytes x next byte x fill {00,ff,counter}; every single-bit value; 62^j-1, 62^j, 62^j+1 for j=0..43; all-zero, all-ff) x 4 documented prefixes through the real identifier.New; every identifier judged for prefix, length 48, documented form, IsValid, Truncated-is-prefix, and pairwise distinctness over the whole set (distinct inputs => distinct identifiers); overlap leg: for representative value pairs (a,b), a != b, x prefix pairs x {parked reader call is the 1st, the 2nd}: one identifier.New is parked right after the scripted reader delivered its bytes, a second complete identifier.New runs, the first is released; each result must equal the identifier its own bytes give alone and the two must differ; name leg: %d names (plain, reserved-word neighbours, UUID mutations, all 8-4-4-4-12 strings with one character class per group) through the real EnsureNameValid, plus every generated identifier offered as a name. Non-trivial: every identifier case; name cases that the statement requires to be rejected", len(values), len(names)))
+	r.Assume("concurrency between generations is explored only at the scheduling point the harness owns (inside the crypto/rand.Reader call), with two generations; no race-detector pass is run in this area",
+		"the statistical claim that random draws are distinct is not decided here, only injectivity of the encoding over the enumerated values",
 		"'looks like an identifier' is taken as the two documented identifier formats (prefix_[0-9a-zA-Z]{43} and lowercase UUID); upper-case UUIDs are recorded but their rejection is not demanded")
 
 	// Identifier leg (serial: crypto/rand.Reader is process-global).
@@ -297,6 +414,46 @@ func TestC39(t *testing.T) {
 	if rand.Reader == nil {
 		t.Fatalf("INFRA: crypto/rand.Reader not restored")
 	}
+
+	// Overlap leg: two generations that overlap at the one scheduling point the
+	// harness owns (the call into crypto/rand.Reader).
+	var reps [][]byte
+	for _, idx := range []int{0, 1, 2, 3, 95, 96, 190, 192, len(values) - 2, len(values) - 1} {
+		if idx >= 0 && idx < len(values) {
+			reps = append(reps, values[idx])
+		}
+	}
+	if vr.Thorough() {
+		for i := 0; i < len(values); i += len(values)/40 + 1 {
+			reps = append(reps, values[i])
+		}
+	}
+	overlaps := 0
+	for _, warmup := range []bool{false, true} {
+		for _, pp := range [][2]string{{"sync", "sync"}, {"sync", "fwrd"}} {
+			for i, a := range reps {
+				for j, b := range reps {
+					if i == j {
+						continue
+					}
+					c := c39case{Leg: "overlap", Prefix: pp[0], Value: hex.EncodeToString(a), Prefix2: pp[1], Value2: hex.EncodeToString(b), Warmup: warmup}
+					if c.Value == c.Value2 {
+						continue
+					}
+					what := c39checkOverlap(c)
+					overlaps++
+					r.Case("overlap|"+vr.J(c), true)
+					if what != "" {
+						r.Outcome("overlap-interference")
+						r.Violate("overlap "+vr.J(c), what, c, func() bool { return c39checkOverlap(c) != "" })
+					} else {
+						r.Outcome("overlap-independent")
+					}
+				}
+			}
+		}
+	}
+	r.Set("overlapped_generation_pairs", overlaps)
 
 	// Name leg.
 	for _, name := range names {
